@@ -158,26 +158,25 @@ def LRel (E : Env) (e1 e2 : List String) : SRel E where
     exact ⟨h.1, h.2.1, h.2.2.1, A ++ [m], by simp [h1], by simp [h2]⟩
 
 theorem ORel.cases {E : Env} {R : SRel E} {s1 s2 : PState} {o1 o2 : Outcome} (h : ORel R s1 s2 o1 o2) :
-    o1 = .oof ∨ o2 = .oof ∨
+    o2 = .oof ∨
     (∃ v ok a b, o1 = .done v ok a ∧ o2 = .done v ok b ∧ R.rel a b ∧ a.rstack = s1.rstack ∧ b.rstack = s2.rstack) ∨
     (∃ p a b, o1 = .panic p a ∧ o2 = .panic p b ∧ R.rel a b) := by
-  rcases h with h | h | h
+  rcases h with h | h
   · exact Or.inl h
-  · exact Or.inr (Or.inl h)
   · cases o1 with
-    | oof => exact Or.inl rfl
+    | oof => cases o2 <;> first | exact Or.inl rfl | exact h.elim
     | panic p a =>
       cases o2 with
-      | oof => exact Or.inr (Or.inl rfl)
-      | panic p' b => obtain ⟨rfl, hr⟩ := h; exact Or.inr (Or.inr (Or.inr ⟨p, a, b, rfl, rfl, hr⟩))
+      | oof => exact Or.inl rfl
+      | panic p' b => obtain ⟨rfl, hr⟩ := h; exact Or.inr (Or.inr ⟨p, a, b, rfl, rfl, hr⟩)
       | done v' ok' b => exact h.elim
     | done v ok a =>
       cases o2 with
-      | oof => exact Or.inr (Or.inl rfl)
+      | oof => exact Or.inl rfl
       | panic p' b => exact h.elim
       | done v' ok' b =>
         obtain ⟨rfl, rfl, hr, h1, h2⟩ := h
-        exact Or.inr (Or.inr (Or.inl ⟨v, ok, a, b, rfl, rfl, hr, h1, h2⟩))
+        exact Or.inr (Or.inl ⟨v, ok, a, b, rfl, rfl, hr, h1, h2⟩)
 
 theorem LRel_iff {E : Env} {e1 e2 : List String} {a b : PState} :
     (LRel E e1 e2).rel a b ↔ (a.pt = b.pt ∧ a.rstack.head? = b.rstack.head? ∧ Reach E.input a.pt ∧
@@ -222,12 +221,11 @@ theorem loc (e1 e2 : List String) : ∀ f,
       intro n r a b h hfr
       rw [ruleWrap_nomemo hc, ruleWrap_nomemo hc]
       exact rule_rel hw hG n r a b h hfr
-    exact step_rel hc hp hw f f hrw hf e a b he h hh
+    exact step_rel hc hp hw f f (Nat.le_refl f) hrw hf e a b he h hh
 
 /-- locality for a whole rule invocation (the callers may differ: the rule pushes itself) -/
 theorem loc_rule (f : Nat) {n : String} {r : Rule} (hfr : E.findRule n = some r) (t1 t2 : PState)
     (hpt : t1.pt = t2.pt) (hr : Reach E.input t1.pt) :
-    parseRule (setMemo E false) (parseExpr (setMemo E false) f) r t1 = .oof ∨
     parseRule (setMemo E false) (parseExpr (setMemo E false) f) r t2 = .oof ∨
     (∃ v ok a b, parseRule (setMemo E false) (parseExpr (setMemo E false) f) r t1 = .done v ok a ∧
       parseRule (setMemo E false) (parseExpr (setMemo E false) f) r t2 = .done v ok b ∧
@@ -241,13 +239,12 @@ theorem loc_rule (f : Nat) {n : String} {r : Rule} (hfr : E.findRule n = some r)
   have hl := loc hc hp hG t1.errs t2.errs f r.expr (pushV { t1 with rstack := r :: t1.rstack })
     (pushV { t2 with rstack := r :: t2.rstack }) n r
     (LRel_iff.mpr ⟨hpt, by simp [pushV], hr, [], by simp [pushV], by simp [pushV]⟩) (hG n r hfr) hfr (by simp [pushV])
-  rcases hl.cases with hl | hl | ⟨v, ok, a, b, h1, h2, hrel, ha, hb⟩ | ⟨p, a, b, h1, h2, _⟩
+  rcases hl.cases with hl | ⟨v, ok, a, b, h1, h2, hrel, ha, hb⟩ | ⟨p, a, b, h1, h2, _⟩
   · rw [hl]; exact Or.inl rfl
-  · rw [hl]; exact Or.inr (Or.inl rfl)
   · rw [h1, h2]
     obtain ⟨l1, _, l3, A, hA1, hA2⟩ := LRel_iff.mp hrel
     simp only [Outcome.bind]
-    refine Or.inr (Or.inr (Or.inl ⟨v, ok, _, _, rfl, rfl, ?_, ?_, ?_, ?_, A, ?_, ?_⟩))
+    refine Or.inr (Or.inl ⟨v, ok, _, _, rfl, rfl, ?_, ?_, ?_, ?_, A, ?_, ?_⟩)
     · simpa using l1
     · simp [ha, pushV]
     · simp [hb, pushV]
@@ -255,10 +252,9 @@ theorem loc_rule (f : Nat) {n : String} {r : Rule} (hfr : E.findRule n = some r)
     · simpa using hA1
     · simpa using hA2
   · rw [h1, h2]
-    exact Or.inr (Or.inr (Or.inr ⟨p, _, _, rfl, rfl⟩))
+    exact Or.inr (Or.inr ⟨p, _, _, rfl, rfl⟩)
 
 end
-
 
 /-! ### validity of the memo table -/
 
@@ -392,81 +388,47 @@ theorem wrap_sim {recM : Expr → PState → Outcome} (f : Nat)
     have hv := h5 _ (getMemoized_mem hg)
     simp only [Valid] at hv
     rcases hv e rn r hnode hown hf f b hbr (by rw [← h1]) hbh with ho | ⟨t', ho, hpt', hrs, hreach', A, hA, hsub⟩
-    · exact Or.inr (Or.inl ho)
+    · exact Or.inl ho
     · rw [ho]
       exact hit_sim h hpt' hrs hreach' hA hsub (hit a) (by simp) (by simp) (by simp) (by simp)
   | none =>
     simp only []
-    have h0 := hrec e a b rn r h he hf hh
-    cases hM : recM e a with
-    | oof => exact Or.inl rfl
-    | panic p a' =>
-      cases hN : parseExpr (setMemo E false) f e b with
-      | oof => exact Or.inr (Or.inl rfl)
-      | panic p' b' =>
-        rw [hM, hN] at h0
-        rcases h0 with h0 | h0 | h0
-        · cases h0
-        · cases h0
-        · exact Or.inr (Or.inr h0)
-      | done v' ok' b' =>
-        rw [hM, hN] at h0
-        rcases h0 with h0 | h0 | h0
-        · cases h0
-        · cases h0
-        · exact h0.elim
-    | done v ok a' =>
-      cases hN : parseExpr (setMemo E false) f e b with
-      | oof => exact Or.inr (Or.inl rfl)
-      | panic p' b' =>
-        rw [hM, hN] at h0
-        rcases h0 with h0 | h0 | h0
-        · cases h0
-        · cases h0
-        · exact h0.elim
-      | done v' ok' b' =>
-        rw [hM, hN] at h0
-        rcases h0 with h0 | h0 | h0
-        · cases h0
-        · cases h0
-        · obtain ⟨rfl, rfl, hr, ha, hb⟩ := h0
-          obtain ⟨r1, r2, r3, r4, r5⟩ := MRel_iff.mp hr
-          simp only [Outcome.bind]
-          refine ORel.done _ _ (MRel_iff.mpr ⟨r1, r2, r3, r4, ?_⟩) ha hb
-          intro ent hent
-          simp only [setMemoized, List.mem_cons] at hent
-          rcases hent with rfl | hent
-          · simp only [Valid]
-            intro e' rn' r' hn' ho' hf' f' t hrt hoff hhd
-            have e1 : e' = e := by rw [hnode] at hn'; exact (Option.some.inj hn').symm
-            have e2 : rn' = rn := by rw [hown] at ho'; exact (Option.some.inj ho').symm
-            have e3 : r' = r := by rw [e2, hf] at hf'; exact (Option.some.inj hf').symm
-            rw [e1]; rw [e3] at hhd
-            by_cases hoof : parseExpr (setMemo E false) f' e t = .oof
-            · exact Or.inl hoof
-            · have m1 : parseExpr (setMemo E false) (max f f') e b = .done v ok b' := by
-                rw [parseExpr_mono (setMemo E false) (Nat.le_max_left f f') e b (by rw [hN]; simp), hN]
-              have m2 : parseExpr (setMemo E false) (max f f') e t = parseExpr (setMemo E false) f' e t :=
-                parseExpr_mono (setMemo E false) (Nat.le_max_right f f') e t hoof
-              have hbt : b.pt = t.pt := Reach.unique hbr hrt (by rw [hoff, h1])
-              have hl := loc hc hp hG b.errs t.errs (max f f') e b t rn r
-                (LRel_iff.mpr ⟨hbt, by rw [hbh, hhd], hbr, [], by simp, by simp⟩) he hf hbh
-              rw [m1, m2] at hl
-              rcases hl with hl | hl | hl
-              · cases hl
-              · exact absurd hl hoof
-              · cases hT : parseExpr (setMemo E false) f' e t with
-                | oof => exact absurd hT hoof
-                | panic p t' => rw [hT] at hl; exact hl.elim
-                | done v2 ok2 t' =>
-                  rw [hT] at hl
-                  obtain ⟨rfl, rfl, hlr, _, htr⟩ := hl
-                  obtain ⟨l1, _, l3, A, hA1, hA2⟩ := LRel_iff.mp hlr
-                  refine Or.inr ⟨t', rfl, l1.symm.trans r1.symm, htr, by rw [← l1]; exact l3, A, hA2, ?_⟩
-                  intro x hx
-                  exact (r4.mem x).mpr (by rw [hA1]; exact List.mem_append_right _ hx)
-          · exact r5 ent hent
-
+    rcases (hrec e a b rn r h he hf hh).cases with h0 | ⟨v, ok, a', b', hM, hN, hr, ha, hb⟩ | ⟨p, a', b', hM, hN, hr⟩
+    · exact Or.inl h0
+    · rw [hM, hN]
+      obtain ⟨r1, r2, r3, r4, r5⟩ := MRel_iff.mp hr
+      simp only [Outcome.bind]
+      refine ORel.done _ _ (MRel_iff.mpr ⟨r1, r2, r3, r4, ?_⟩) ha hb
+      intro ent hent
+      simp only [setMemoized, List.mem_cons] at hent
+      rcases hent with rfl | hent
+      · simp only [Valid]
+        intro e' rn' r' hn' ho' hf' f' t hrt hoff hhd
+        have e1 : e' = e := by rw [hnode] at hn'; exact (Option.some.inj hn').symm
+        have e2 : rn' = rn := by rw [hown] at ho'; exact (Option.some.inj ho').symm
+        have e3 : r' = r := by rw [e2, hf] at hf'; exact (Option.some.inj hf').symm
+        rw [e1]; rw [e3] at hhd
+        by_cases hoof : parseExpr (setMemo E false) f' e t = .oof
+        · exact Or.inl hoof
+        · have m1 : parseExpr (setMemo E false) (max f f') e b = .done v ok b' := by
+            rw [parseExpr_mono (setMemo E false) (Nat.le_max_left f f') e b (by rw [hN]; simp), hN]
+          have m2 : parseExpr (setMemo E false) (max f f') e t = parseExpr (setMemo E false) f' e t :=
+            parseExpr_mono (setMemo E false) (Nat.le_max_right f f') e t hoof
+          have hbt : b.pt = t.pt := Reach.unique hbr hrt (by rw [hoff, h1])
+          have hl := loc hc hp hG b.errs t.errs (max f f') e b t rn r
+            (LRel_iff.mpr ⟨hbt, by rw [hbh, hhd], hbr, [], by simp, by simp⟩) he hf hbh
+          rw [m1, m2] at hl
+          rcases hl.cases with hl | ⟨v2, ok2, b2, t', hl1, hl2, hlr, _, htr⟩ | ⟨p, b2, t', hl1, _, _⟩
+          · exact absurd hl hoof
+          · cases hl1
+            obtain ⟨l1, _, l3, A, hA1, hA2⟩ := LRel_iff.mp hlr
+            refine Or.inr ⟨t', hl2, l1.symm.trans r1.symm, htr, by rw [← l1]; exact l3, A, hA2, ?_⟩
+            intro x hx
+            exact (r4.mem x).mpr (by rw [hA1]; exact List.mem_append_right _ hx)
+          · cases hl1
+      · exact r5 ent hent
+    · rw [hM, hN]
+      exact ORel.panic p hr
 
 theorem rule_sim {recM : Expr → PState → Outcome} (f k1 k2 : Nat)
     (hw : WrapRel (MRel E own node) own node isPred (parseExprWrap (setMemo E true) recM)
@@ -485,14 +447,13 @@ theorem rule_sim {recM : Expr → PState → Outcome} (f k1 k2 : Nat)
     have hv := h5 _ (getMemoized_mem hg)
     simp only [Valid] at hv
     rcases hv r (by rw [hname]; exact hfr) f b hbr (by rw [← h1]) with ho | ⟨t', ho, hpt', hrs, hreach', A, hA, hsub⟩
-    · exact Or.inr (Or.inl ho)
+    · exact Or.inl ho
     · rw [ho]
       exact hit_sim h hpt' hrs hreach' hA hsub a rfl rfl rfl rfl
   | none =>
     simp only []
-    rcases (rule_rel hw hG n r a b h hfr).cases with h0 | h0 | ⟨v, ok, a', b', hM, hN, hr, ha, hb⟩ | ⟨p, a', b', hM, hN, hr⟩
-    · rw [h0]; exact Or.inl rfl
-    · exact Or.inr (Or.inl h0)
+    rcases (rule_rel hw hG n r a b h hfr).cases with h0 | ⟨v, ok, a', b', hM, hN, hr, ha, hb⟩ | ⟨p, a', b', hM, hN, hr⟩
+    · exact Or.inl h0
     · rw [hM, hN]
       obtain ⟨r1, r2, r3, r4, r5⟩ := MRel_iff.mp hr
       simp only [Outcome.bind]
@@ -514,8 +475,7 @@ theorem rule_sim {recM : Expr → PState → Outcome} (f k1 k2 : Nat)
           have hbt : b.pt = t.pt := Reach.unique hbr hrt (by rw [hoff, h1])
           have hl := loc_rule hc hp hG (max f f') hfr b t hbt hbr
           rw [m1, m2] at hl
-          rcases hl with hl | hl | ⟨v2, ok2, b2, t', hl1, hl2, l1, _, htr, l3, A, hA1, hA2⟩ | ⟨p, b2, t', hl1, _⟩
-          · cases hl
+          rcases hl with hl | ⟨v2, ok2, b2, t', hl1, hl2, l1, _, htr, l3, A, hA1, hA2⟩ | ⟨p, b2, t', hl1, _⟩
           · exact absurd hl hoof
           · cases hl1
             refine Or.inr ⟨t', hl2, l1.symm.trans r1.symm, htr, by rw [← l1]; exact l3, A, hA2, ?_⟩
@@ -527,18 +487,20 @@ theorem rule_sim {recM : Expr → PState → Outcome} (f k1 k2 : Nat)
       exact ORel.panic p hr
 
 
-/-- **The simulation.** Memoized evaluation on the left, un-memoized on the right, at any two depths. -/
-theorem sim : ∀ fM fN, WrapRel (MRel E own node) own node isPred (parseExpr (setMemo E true) fM)
+/-- **The simulation.** Memoized evaluation on the left, un-memoized on the right: whenever the un-memoized run ends
+    at depth `fN`, the memoized run ends at every depth `fM ≥ fN`, and alike. -/
+theorem sim : ∀ fM fN, fN ≤ fM → WrapRel (MRel E own node) own node isPred (parseExpr (setMemo E true) fM)
     (parseExpr (setMemo E false) fN)
-  | 0, _ => fun _ _ _ _ _ _ _ _ _ => Or.inl rfl
-  | _ + 1, 0 => fun _ _ _ _ _ _ _ _ _ => Or.inr (Or.inl rfl)
-  | fM + 1, fN + 1 => by
+  | _, 0, _ => fun _ _ _ _ _ _ _ _ _ => Or.inl rfl
+  | 0, _ + 1, hle => absurd hle (by omega)
+  | fM + 1, fN + 1, hle => by
+    have hle' : fN ≤ fM := by omega
     intro e a b rn r h he hf hh
     show ORel _ a b (parseExprStep (setMemo E true) (parseExpr (setMemo E true) fM) fM e a)
       (parseExprStep (setMemo E false) (parseExpr (setMemo E false) fN) fN e b)
-    have hw := wrap_sim hc hp hG fN (sim fM fN)
+    have hw := wrap_sim hc hp hG fN (sim fM fN hle')
     have hrw := rule_sim hc hp hG fN fM fN hw
-    exact step_rel hc hp hw fM fN hrw hf e a b he h hh
+    exact step_rel hc hp hw fM fN hle' hrw hf e a b he h hh
 
 omit hc hp hG in
 theorem start_rel : (MRel E own node).rel (startState (setMemo E true)) (startState (setMemo E false)) := by
@@ -554,11 +516,11 @@ theorem start_rel : (MRel E own node).rel (startState (setMemo E true)) (startSt
     cases hent
 
 /-- the start rule, memoized and not, from the start state -/
-theorem sim_start (fM fN : Nat) {n : String} {r : Rule} (hfr : E.findRule n = some r) :
+theorem sim_start (fM fN : Nat) (hle : fN ≤ fM) {n : String} {r : Rule} (hfr : E.findRule n = some r) :
     ORel (MRel E own node) (startState (setMemo E true)) (startState (setMemo E false))
       (parseRuleWrap (setMemo E true) (parseExpr (setMemo E true) fM) fM r (startState (setMemo E true)))
       (parseRuleWrap (setMemo E false) (parseExpr (setMemo E false) fN) fN r (startState (setMemo E false))) :=
-  rule_sim hc hp hG fN fM fN (wrap_sim hc hp hG fN (sim hc hp hG fM fN)) n r _ _ start_rel hfr
+  rule_sim hc hp hG fN fM fN (wrap_sim hc hp hG fN (sim hc hp hG fM fN hle)) n r _ _ start_rel hfr
 
 end sim
 
@@ -578,14 +540,13 @@ section top
 variable {E : Env} {own : Nat → Option String} {node : Nat → Option Expr} {isPred : Nat → Bool}
 
 theorem finish_rel {s1 s2 : PState} {o1 o2 : Outcome} (h : ORel (MRel E own node) s1 s2 o1 o2) :
-    finish (setMemo E true) o1 = .oof ∨ finish (setMemo E false) o2 = .oof ∨
+    finish (setMemo E false) o2 = .oof ∨
       FinalRel (finish (setMemo E true) o1) (finish (setMemo E false) o2) := by
-  rcases h.cases with h | h | ⟨v, ok, a, b, h1, h2, hr, _, _⟩ | ⟨p, a, b, h1, h2, hr⟩
+  rcases h.cases with h | ⟨v, ok, a, b, h1, h2, hr, _, _⟩ | ⟨p, a, b, h1, h2, hr⟩
   · rw [h]; exact Or.inl rfl
-  · rw [h]; exact Or.inr (Or.inl rfl)
   · rw [h1, h2]
     obtain ⟨_, _, _, r4, _⟩ := MRel_iff.mp hr
-    refine Or.inr (Or.inr ?_)
+    refine Or.inr ?_
     unfold finish
     cases ok with
     | true => exact ⟨rfl, Or.inl r4⟩
@@ -602,7 +563,7 @@ theorem finish_rel {s1 s2 : PState} {o1 o2 : Outcome} (h : ORel (MRel E own node
       | false => exact ⟨rfl, Or.inl r4⟩
   · rw [h1, h2]
     obtain ⟨r1, r2, _, r4, _⟩ := MRel_iff.mp hr
-    refine Or.inr (Or.inr ?_)
+    refine Or.inr ?_
     unfold finish
     have hrec1 : (setMemo E true).opts.recover = E.opts.recover := rfl
     have hrec2 : (setMemo E false).opts.recover = E.opts.recover := rfl
@@ -620,25 +581,25 @@ variable (hc : MemoCfg E) (hp : PureCode E isPred)
   (hG : ∀ n r, E.findRule n = some r → r.expr.Ok own node isPred n)
 include hc hp hG
 
-/-- **Memoize does not change what `Parse` returns** (for the grammars and configuration described at the top) -/
-theorem memo_sound (fM fN : Nat) :
-    parse (setMemo E true) fM = .oof ∨ parse (setMemo E false) fN = .oof ∨
-      FinalRel (parse (setMemo E true) fM) (parse (setMemo E false) fN) := by
+/-- **Memoize does not change what `Parse` returns** (for the grammars and configuration described at the top): whenever
+    the un-memoized parse ends at depth `fN`, the memoized parse ends at every depth `fM ≥ fN` and returns the same. -/
+theorem memo_sound (fM fN : Nat) (hle : fN ≤ fM) :
+    parse (setMemo E false) fN = .oof ∨ FinalRel (parse (setMemo E true) fM) (parse (setMemo E false) fN) := by
   unfold parse
   simp only []
   have hr1 : (setMemo E true).rules = E.rules := rfl
   have hr2 : (setMemo E false).rules = E.rules := rfl
   rw [hr1, hr2]
   cases hrules : E.rules with
-  | nil => exact Or.inr (Or.inr ⟨rfl, Or.inl rfl⟩)
+  | nil => exact Or.inr ⟨rfl, Or.inl rfl⟩
   | cons first rest =>
     simp only []
     have hf1 : (setMemo E true).findRule (entryName (setMemo E true) first) = E.findRule (entryName E first) := rfl
     have hf2 : (setMemo E false).findRule (entryName (setMemo E false) first) = E.findRule (entryName E first) := rfl
     rw [hf1, hf2]
     cases hfr : E.findRule (entryName E first) with
-    | none => exact Or.inr (Or.inr ⟨rfl, Or.inl rfl⟩)
-    | some r => exact finish_rel (sim_start hc hp hG fM fN hfr)
+    | none => exact Or.inr ⟨rfl, Or.inl rfl⟩
+    | some r => exact finish_rel (sim_start hc hp hG fM fN hle hfr)
 
 end top
 
